@@ -1175,6 +1175,47 @@ func c20(r *core.Run) {
 		}
 	})
 
+	r.Check("D3/K8/config-template-verbatim", "config.NewConfig hands the generators the template it was given: every value stored to Config.NamingFormat is the format parameter itself, or the DefaultFormat constant on the path on which the parameter was found empty (a template that is trimmed or otherwise rewritten on the way loses prefix/suffix characters, which the property makes part of the file name)", func(o *core.O) {
+		nc := ext.Func(godCfgRel, "", "NewConfig")
+		if !o.Need(nc != nil && len(nc.Params) > 0, "config.NewConfig") {
+			return
+		}
+		r.Fn(core.FuncName(nc))
+		par := nc.Params[0]
+		isPar := func(v ssa.Value) bool { return core.Forward(v) == ssa.Value(par) }
+		empty := core.AnyOf(core.EmptyLen(isPar), core.Cmp(token.EQL, isPar, func(v ssa.Value) bool { k, ok := core.ConstString(v); return ok && k == "" }))
+		holds, _ := core.EdgesOf(nc, empty)
+		n := 0
+		for _, st := range core.StoresToField(nc, "Config.NamingFormat") {
+			gxLeavesWithEdges(st.Val, func(leaf ssa.Value, edge *core.Edge) {
+				n++
+				leaf = core.Forward(leaf)
+				if leaf == ssa.Value(par) {
+					return
+				}
+				if _, isConst := core.ConstString(leaf); isConst {
+					// the default: only where the parameter was found empty
+					reach := false
+					if edge != nil {
+						// every path to this φ edge must come through an `empty` edge
+						reach = gxEdgeReachable(nc, *edge, holds)
+					} else {
+						reach = core.Requires(nc, core.Is(st), empty) != nil
+					}
+					if reach {
+						o.Fail(p.InstrPos(st), "NewConfig replaces the template by %s on a path on which the given template was not found empty", core.Describe(leaf))
+					}
+					return
+				}
+				o.Fail(p.InstrPos(st), "NewConfig stores %s as the naming template instead of the format it was given: characters of the template's prefix or suffix are lost or changed before FileNamingFormat sees them", core.Describe(leaf))
+			})
+		}
+		o.Site(n, core.FuncName(nc))
+		if n == 0 {
+			o.Unres("%s: no store to Config.NamingFormat found", core.FuncName(nc))
+		}
+	})
+
 	r.Check("D3/K6/word-boundaries", "the splitter starts a new word exactly at '_' (dropped) and before each of 'A'..'Z' (kept): evaluated concretely for the runes around both ends of the range", func(o *core.O) {
 		// role: the function of the format package that iterates over the runes of its
 		// string parameter (ReadRune on a strings.Reader, or `for range` over the
